@@ -1400,7 +1400,7 @@ TARGETS = [
     ('getFileList', 'Dir → Option Text → Bool → List FileEntry', t_getFileList),
     ('printPELInHexFormat', 'Bytes → OutM Unit (Ctl Unit)', t_printHex),
     ('extractAndSummarizePEL', 'Env → DirCfg → FileEntry → OutM Unit (Ctl (Text × J))', t_extract),
-    ('parseAndPrintPELFile', 'Env → DirCfg → FileEntry → Bool → OutM Unit (Ctl Bool)', t_printFile),
+    ('dirParseAndPrintPELFile', 'Env → DirCfg → FileEntry → Bool → OutM Unit (Ctl Bool)', t_printFile),
     ('listOption', MODE_TY, lambda mod: mode(mod, 'listOption')),
     ('extractAllPELsData', MODE_TY, lambda mod: mode(mod, 'extractAllPELsData')),
     ('printPELCount', MODE_TY, lambda mod: mode(mod, 'printPELCount')),
